@@ -261,6 +261,9 @@ func (w *World) streamPolicy(ci *simnet.ConnInfo, dir simnet.Dir) simnet.StreamP
 			continue
 		}
 		switch f.Kind {
+		case "xor":
+			p.Rewrites = append(p.Rewrites, simnet.Rewrite{Off: f.Off, Xor: f.Xor})
+			w.fault("tcp-rewrite")
 		case "rewrite":
 			rw := simnet.Rewrite{Off: f.Off, Del: f.Del, Ins: f.Ins}
 			p.Rewrites = append(p.Rewrites, rw)
@@ -341,4 +344,16 @@ func enableMieruLog() {
 	mlog.SetFormatter(&mlog.DaemonFormatter{})
 	mlog.SetOutput(os.Stderr)
 	mlog.SetLevel(lv)
+}
+
+// connTampered: an in-path rewrite is planned on this connection, so what an
+// endpoint emits may answer bytes the tap never saw (the tap decodes what the
+// sender emitted, before the rewrite).
+func (w *World) connTampered(id int) bool {
+	for _, f := range w.Spec.Net.Stream {
+		if f.Conn == id && (f.Kind == "rewrite" || f.Kind == "xor") {
+			return true
+		}
+	}
+	return false
 }
